@@ -64,9 +64,39 @@ def sub_boxes_1d(a, b, kmax=2):
     return out
 
 
+def _reuse_case(c):
+    """one grid OBJECT serves a sequence of (level, sub-box) requests: every answer must equal the answer of a fresh object"""
+    name, d, a, b = c["family"], c["d"], c["a"], c["b"]
+    key = {"family": name, "oracle_kind": "object_reuse"}
+    fails = []
+    g = _grid(name, a, b, True)
+    for step, (lv, s, e) in enumerate(c["requests"]):
+        g.setCurrentArea(np.array(s, dtype=float), np.array(e, dtype=float), list(lv))
+        p1, w1 = g.get_points_and_weights()
+        fresh = _grid(name, a, b, True)
+        fresh.setCurrentArea(np.array(s, dtype=float), np.array(e, dtype=float), list(lv))
+        p2, w2 = fresh.get_points_and_weights()
+        p1 = np.array([[float(x) for x in p] for p in p1]).reshape(-1, d)
+        p2 = np.array([[float(x) for x in p] for p in p2]).reshape(-1, d)
+        if p1.shape != p2.shape or not np.array_equal(p1, p2):
+            fails.append(fail("reused_object_points", "request %d (level %r box %r-%r) after %r: points %r, fresh object %r" % (step, lv, s, e, c["requests"][:step], p1.tolist()[:4], p2.tolist()[:4]), key))
+            break
+        w1, w2 = np.asarray(w1, dtype=float), np.asarray(w2, dtype=float)
+        if w1.shape != w2.shape or not np.allclose(w1, w2, rtol=1e-13, atol=1e-15):
+            fails.append(fail("reused_object_weights", "request %d (level %r box %r-%r) after %r: weights %r, fresh object %r" % (step, lv, s, e, c["requests"][:step], w1.tolist()[:4], w2.tolist()[:4]), key))
+            break
+        tol = 1e-12
+        if any(not (s[k] - tol * (1 + abs(s[k])) <= p[k] <= e[k] + tol * (1 + abs(e[k]))) for p in p1 for k in range(d)):
+            fails.append(fail("points_inside_subbox", "request %d: points %r outside [%r,%r]" % (step, p1.tolist()[:3], s, e), {"family": name}))
+            break
+    return {"failures": fails, "canon": core.config_key(c), "outcome": (len(c["requests"]), len(fails)), "nontrivial": True, "evals": len(c["requests"])}
+
+
 def run_case(case):
     from sparseSpACE.Function import CustomFunction
     c = case["config"]
+    if c.get("kind") == "reuse":
+        return _reuse_case(c)
     name, d, lv = c["family"], c["d"], c["level"]
     a, b, s, e = c["a"], c["b"], c["start"], c["end"]
     key = {"family": name}
@@ -154,6 +184,19 @@ def cases(tier):
                     for box in itertools.product(*boxes1):
                         out.append({"config": {"family": name, "d": d, "level": list(lv), "a": a, "b": b,
                                                "start": [x[0] for x in box], "end": [x[1] for x in box]}})
+    # object reuse: all ordered pairs / triples of requests from a small menu on ONE grid object
+    menu1 = [([1], [0.0], [1.0]), ([2], [0.0], [1.0]), ([2], [0.25], [0.5]), ([1], [0.5], [1.0]), ([3], [0.0], [0.5]), ([2], [0.5], [0.75]), ([0], [0.0], [0.5])]
+    menu1b = [([lv[0]], [-1.0 + 4 * s[0]], [-1.0 + 4 * e[0]]) for lv, s, e in menu1]
+    menu2 = [([1, 2], [0.0, 0.0], [1.0, 1.0]), ([2, 1], [0.5, 0.0], [1.0, 0.5]), ([2, 2], [0.25, 0.5], [0.5, 1.0]), ([1, 2], [0.0, 0.5], [0.5, 1.0])]
+    for name in FAMILIES:
+        for (a, b, menu) in (([0.0], [1.0], menu1), ([-1.0], [3.0], menu1b)):
+            for n in (2, 3):
+                if n == 3 and tier == "quick" and name not in ("leja", "clenshaw_curtis", "trapezoidal"):
+                    continue
+                for seq in itertools.product(menu, repeat=n):
+                    out.append({"config": {"kind": "reuse", "family": name, "d": 1, "a": a, "b": b, "requests": [list(x) for x in seq]}})
+        for seq in itertools.product(menu2, repeat=2):
+            out.append({"config": {"kind": "reuse", "family": name, "d": 2, "a": [0.0, 0.0], "b": [1.0, 1.0], "requests": [list(x) for x in seq]}})
     return out
 
 
@@ -162,14 +205,15 @@ def main(ctx):
     ctx.determinism_probe(cs[len(cs) // 3])
     results = ctx.map(cs)
     for case, res in zip(cs, results):
-        ctx.absorb(case, res, group=case["config"]["family"] + "_d%d" % case["config"]["d"])
-    for i in (5, len(cs) // 2, len(cs) - 7):
-        ctx.add_sample({"case": cs[i], "points_and_nominal_degrees": results[i]["outcome"]})
+        ctx.absorb(case, res, group=case["config"]["family"] + ("_reuse" if case["config"].get("kind") == "reuse" else "") + "_d%d" % case["config"]["d"])
+    for i in (5, len(cs) // 3, len(cs) - 7):
+        ctx.add_sample({"case": cs[i], "outcome": results[i]["outcome"]})
     ctx.bounds = {"cases": len(cs), "families": FAMILIES}
     return ctx.finish(
         rule="complete lattice family x d(1,2) x level vector {0..L}^d x dyadic sub-boxes (k<=2; quick: k<=1 in 2D except trapezoid) of "
              "[0,1]^d and [-1,3](x[2,4]); every tensor monomial up to the nominal degree per dimension is one obligation "
-             "(evaluations); non-trivial = grid with more than one point",
+             "(evaluations); in addition every ordered pair (and triple) of requests from a menu of 7 (level, sub-box) requests is served by ONE "
+             "grid object and compared with fresh objects (object-reuse transparency); non-trivial = grid with more than one point",
         assumptions=["nominal degrees as in the statement (trapezoid 1, Simpson 3 (1 with two points), CC/Leja n-1, Gauss 2n-1, "
                      "Lagrange/B-spline min(p,n-1)) with n = announced points per dimension",
                      "first sentence demanded with boundary points on (Gauss has none); weights-sum not demanded for the hierarchical "
